@@ -1030,3 +1030,150 @@ Qed.
    which needs, per row, that the pixels of one edge form a run that reaches from the edge's ideal crossing to the
    pixel farthest outside - a case analysis over steep/shallow edges and the three vertex rows that is not done.
    Compared exhaustively (7x7 grid, all vertex triples) and at random by the suites p_tri_c05 / p_tri. *)
+
+(* ======================================================================== *)
+(* 6. points() as a specification; translation                              *)
+(* ======================================================================== *)
+
+(* Complete description of Triangle::points() in terms of Bresenham lines: the lattice points that lie, in
+   their row, between two pixels of the sorted edge lines (together with tri_points_row_major this
+   determines the list). *)
+Theorem tri_points_spec t q : tri_ok t ->
+  (In q (tri_points t) <->
+   exists a b, In (P a (py q)) (tri_fill_edges t) /\ In (P b (py q)) (tri_fill_edges t) /\ a <= px q <= b).
+Proof.
+  intros Hok. split; [apply points_between_edge_pixels; assumption|].
+  intros (a & b & Ha & Hb & Hab). apply In_tri_points; [assumption|]. split.
+  - pose proof (fill_edges_in_bbox t _ Ha) as C. apply contains_spec in C.
+    pose proof (sorted_bbox_coords t) as B. cbv zeta in B. cbn [py] in C. lia.
+  - apply (tri_scanline_covers t a b); assumption.
+Qed.
+
+(* two strictly sorted lists with the same elements are equal *)
+Lemma sorted_lt_ext (l1 l2 : list point) :
+  StronglySorted lt_yx l1 -> StronglySorted lt_yx l2 -> (forall q, In q l1 <-> In q l2) -> l1 = l2.
+Proof.
+  intros H1. revert l2. induction H1 as [|x l1 Hs1 IH Hx]; intros l2 H2 Hiff.
+  - destruct l2 as [|y l2]; [reflexivity|]. exfalso. apply (Hiff y). left; reflexivity.
+  - destruct H2 as [|y l2 Hs2 Hy].
+    + exfalso. apply (Hiff x). left; reflexivity.
+    + rewrite Forall_forall in Hx, Hy.
+      assert (E : x = y).
+      { destruct (proj1 (Hiff x) ltac:(left; reflexivity)) as [E|Hin]; [symmetry; assumption|].
+        destruct (proj2 (Hiff y) ltac:(left; reflexivity)) as [E|Hin']; [assumption|].
+        specialize (Hx y Hin'). specialize (Hy x Hin). unfold lt_yx in *. lia. }
+      subst y. f_equal. apply IH; [assumption|]. intros q. split; intros Hq.
+      * destruct (proj1 (Hiff q) ltac:(right; assumption)) as [E|Hin]; [|assumption].
+        subst q. specialize (Hx x Hq). unfold lt_yx in Hx. lia.
+      * destruct (proj2 (Hiff q) ltac:(right; assumption)) as [E|Hin]; [|assumption].
+        subst q. specialize (Hy x Hq). unfold lt_yx in Hy. lia.
+Qed.
+
+Lemma tri_translate_perm t u d : perm3 t u -> perm3 (tri_translate t d) (tri_translate u d).
+Proof.
+  destruct t as [a b c]. unfold perm3, tri_translate. cbn [v1 v2 v3]. intros H.
+  perm_cases H; cbn [v1 v2 v3]; pick_refl.
+Qed.
+
+Lemma sorted_yx_translate t d : sorted_yx (tri_translate t d) = tri_translate (sorted_yx t) d.
+Proof.
+  destruct (sorted_yx_spec t) as [P1 S1]. destruct (sorted_yx_spec (tri_translate t d)) as [P2 S2].
+  apply (sorted3_unique (tri_translate t d)); try assumption.
+  - apply tri_translate_perm. assumption.
+  - unfold sorted3, le_yx, tri_translate, padd in *. cbn [v1 v2 v3 px py]. lia.
+Qed.
+
+Lemma area_doubled_translate t d : area_doubled (tri_translate t d) = area_doubled t.
+Proof. destr_tri t. destruct d as [dx dy]. unfold area_doubled, tri_translate, padd. cbn [v1 v2 v3 px py]. lia. Qed.
+
+Lemma tri_fill_edges_translate t d :
+  tri_fill_edges (tri_translate t d) = map (fun p => padd p d) (tri_fill_edges t).
+Proof.
+  unfold tri_fill_edges, tri_edge_points. rewrite sorted_yx_translate, area_doubled_translate.
+  set (st := sorted_yx t). unfold tri_translate. cbn [v1 v2 v3].
+  change (L (padd (v1 st) d) (padd (v3 st) d)) with (translate_line (L (v1 st) (v3 st)) d).
+  change (L (padd (v1 st) d) (padd (v2 st) d)) with (translate_line (L (v1 st) (v2 st)) d).
+  change (L (padd (v2 st) d) (padd (v3 st) d)) with (translate_line (L (v2 st) (v3 st)) d).
+  destruct (area_doubled t =? 0); rewrite !line_points_translate, ?map_app; reflexivity.
+Qed.
+
+Lemma psub_padd p d : padd (psub p d) d = p.
+Proof. destruct p as [x y], d as [dx dy]. unfold padd, psub. cbn [px py]. f_equal; lia. Qed.
+
+Lemma In_map_padd p d l : In p (map (fun r => padd r d) l) <-> In (psub p d) l.
+Proof.
+  rewrite in_map_iff. split.
+  - intros (r & <- & Hr). replace (psub (padd r d) d) with r; [assumption|].
+    destruct r as [x y], d as [dx dy]. unfold padd, psub. cbn [px py]. f_equal; lia.
+  - intros H. exists (psub p d). split; [apply psub_padd | assumption].
+Qed.
+
+Lemma map_padd_sorted d l : StronglySorted lt_yx l -> StronglySorted lt_yx (map (fun r => padd r d) l).
+Proof.
+  induction 1 as [|x l Hs IH Hx]; cbn [map]; constructor; [assumption|].
+  rewrite Forall_forall in *. intros z Hz. apply in_map_iff in Hz. destruct Hz as (r & <- & Hr).
+  specialize (Hx r Hr). unfold lt_yx, padd in *. cbn [px py]. lia.
+Qed.
+
+(* C07, triangle: points() of the translated triangle are the translated points(), in the same order *)
+Theorem tri_points_translate t d : tri_ok t -> tri_ok (tri_translate t d) ->
+  tri_points (tri_translate t d) = map (fun p => padd p d) (tri_points t).
+Proof.
+  intros H1 H2. apply sorted_lt_ext.
+  - apply tri_points_row_major. assumption.
+  - apply map_padd_sorted, tri_points_row_major. assumption.
+  - intros q. rewrite In_map_padd, !tri_points_spec by assumption. rewrite tri_fill_edges_translate.
+    destruct q as [qx qy], d as [dx dy]. unfold psub. cbn [px py]. split.
+    + intros (a & b & Ha & Hb & Hab). exists (a - dx), (b - dx).
+      apply In_map_padd in Ha, Hb. unfold psub in Ha, Hb. cbn [px py] in Ha, Hb. repeat split; try assumption; lia.
+    + intros (a & b & Ha & Hb & Hab). exists (a + dx), (b + dx).
+      rewrite !In_map_padd. unfold psub. cbn [px py].
+      replace (a + dx - dx) with a by lia. replace (b + dx - dx) with b by lia. repeat split; try assumption; lia.
+Qed.
+
+Lemma tri_bounding_box_translate t d :
+  tri_bounding_box (tri_translate t d) = translate_rect (tri_bounding_box t) d.
+Proof.
+  destr_tri t. destruct d as [dx dy].
+  unfold tri_bounding_box, tri_translate, translate_rect, with_corners, size_from_bounding_box, padd.
+  cbn [v1 v2 v3 px py tl sz]. f_equal; f_equal; lia.
+Qed.
+
+Lemma tri_is_inside_translate t d p : tri_is_inside (tri_translate t d) (padd p d) = tri_is_inside t p.
+Proof.
+  unfold tri_is_inside. rewrite area_doubled_translate.
+  destr_tri t. destruct d as [dx dy], p as [qx qy]. unfold tri_translate, padd. cbn [v1 v2 v3 px py].
+  cbv zeta.
+  match goal with |- (if negb (Bool.eqb (?s1 <? 0) (?t1 <? 0)) then _ else _) = (if negb (Bool.eqb (?s2 <? 0) (?t2 <? 0)) then _ else _) =>
+    replace s1 with s2 by lia; replace t1 with t2 by lia end.
+  reflexivity.
+Qed.
+
+Lemma contains_translate_rect r d p : contains (translate_rect r d) (padd p d) = contains r p.
+Proof.
+  destruct (contains r p) eqn:E.
+  - apply contains_spec in E. apply contains_spec. unfold translate_rect, padd. cbn [tl sz px py]. lia.
+  - destruct (contains (translate_rect r d) (padd p d)) eqn:E2; [|reflexivity].
+    apply contains_spec in E2. unfold translate_rect, padd in E2. cbn [tl sz px py] in E2.
+    assert (contains r p = true) by (apply contains_spec; lia). congruence.
+Qed.
+
+Lemma existsb_point_translate p d l :
+  existsb (fun lp => point_eqb lp (padd p d)) (map (fun r => padd r d) l) = existsb (fun lp => point_eqb lp p) l.
+Proof.
+  induction l as [|x l IH]; [reflexivity|]. cbn [map existsb]. rewrite IH. f_equal.
+  unfold point_eqb, padd. cbn [px py]. lia.
+Qed.
+
+(* C07, triangle: contains() commutes with translation (no range hypothesis needed: unbounded model) *)
+Theorem tri_contains_translate t d p : tri_contains (tri_translate t d) (padd p d) = tri_contains t p.
+Proof.
+  unfold tri_contains. rewrite tri_bounding_box_translate, contains_translate_rect, tri_is_inside_translate.
+  destruct (negb (contains (tri_bounding_box t) p)); [reflexivity|].
+  destruct (tri_is_inside t p) as [[|]|]; try reflexivity.
+  unfold tri_edge_points. rewrite sorted_yx_translate. set (st := sorted_yx t). unfold tri_translate. cbn [v1 v2 v3].
+  change (L (padd (v1 st) d) (padd (v3 st) d)) with (translate_line (L (v1 st) (v3 st)) d).
+  change (L (padd (v1 st) d) (padd (v2 st) d)) with (translate_line (L (v1 st) (v2 st)) d).
+  change (L (padd (v2 st) d) (padd (v3 st) d)) with (translate_line (L (v2 st) (v3 st)) d).
+  rewrite !line_points_translate, <- !map_app. apply existsb_point_translate.
+Qed.
